@@ -741,7 +741,7 @@ func worker(args []string) {
 		if finished, wedgedAt, stack := lib.Guarded(150*time.Second, func() { runCase(run, c, base, inlog) }); !finished {
 			stuck++
 			if wedgedAt != "" {
-				run.Violation("node-wedged-on-a-lock:"+wedgedAt, fmt.Sprintf("case %d: after the hostile inputs of this case the node's own processing blocks for good in the acquisition of a lock (%s); the inputs are the last lines of the input log", c, wedgedAt), map[string]interface{}{"case": c, "blocked_goroutine": stack, "last_logged_inputs": lastLines(inlogPath, 60)})
+				run.ChildViolation("node-wedged-on-a-lock:"+wedgedAt, fmt.Sprintf("case %d: after the hostile inputs of this case the node's own processing blocks for good in the acquisition of a lock (%s); the inputs are the last lines of the input log", c, wedgedAt), map[string]interface{}{"case": c, "blocked_goroutine": stack, "last_logged_inputs": lastLines(inlogPath, 60)})
 			} else {
 				lib.WriteObservation(prop, fmt.Sprintf("case-%d-did-not-return", c), map[string]interface{}{"goroutine": stack})
 				run.Inconclusive(fmt.Sprintf("case %d did not return within the watchdog and its goroutine is not blocked on a lock", c))
